@@ -378,12 +378,24 @@ TRUSTED_BASE = [
 ]
 
 
+def regenerate_tables():
+    """the translators: coq/Gen/*.v are regenerated from /repo's current source on every run (a file is rewritten only when its text
+    changes, so unchanged sources cost no rebuild).  Returns [(translator, message)] for sources a translator cannot read."""
+    bad = []
+    for t in ("cmdtables", "regiontables", "phytables"):
+        rc, out = sh([sys.executable, os.path.join(VERIF, "tools", "rs2v", t + ".py")], cwd=VERIF, timeout=120)
+        if rc != 0:
+            bad.append((t, out))
+    return bad
+
+
 def proof_stage(rep, prop_id, theorems, allowed_axioms=(), extra_targets=()):
     """Build Props/<id>.vo, scan, Print Assumptions.  Returns True iff all obligations discharged.
     On failure records a no-failing-input violation naming what no longer checks (callers may
     first run their search and record a concrete one)."""
     with Lock():
         bad = forbidden_scan()
+        tfail = regenerate_tables()
         ok, log = coq_build(["Props/%s.vo" % prop_id] + list(extra_targets))
     names = count_theorems(prop_id)
     rep.cov["obligations"] = len(names)
@@ -392,6 +404,9 @@ def proof_stage(rep, prop_id, theorems, allowed_axioms=(), extra_targets=()):
                               "coqc .build/assume/A_%s.v (Print Assumptions of each theorem)" % (prop_id, prop_id))
     rep.cov["trusted_base"] = list(TRUSTED_BASE)
     failed = []
+    rep.cov["translators"] = "tools/rs2v/{cmdtables,regiontables,phytables}.py regenerated coq/Gen from /repo's working tree before the build"
+    for t in tfail:
+        failed.append({"kind": "translator-rejected-source", "tie": "T:" + t[0], "error": t[1][-600:]})
     if bad:
         failed.append({"kind": "forbidden-construct", "where": bad})
     if not ok:
